@@ -156,6 +156,12 @@ func (s *stubAuth) Authorize(ctx context.Context, a k8sauth.Attributes) (k8sauth
 	s.mu.Lock()
 	s.asked = append(s.asked, q.String())
 	s.mu.Unlock()
+	if err := ctx.Err(); err != nil {
+		// like the webhook / delegating authorizers: a cancelled request context is answered with no opinion and
+		// the context's error (the caller of AuthorizeTierOperation never cancels the context in this harness)
+		s.r.Probe("stub_saw_cancelled_context")
+		return k8sauth.DecisionNoOpinion, "context cancelled", err
+	}
 	ans, ok := s.table[q.String()]
 	if !ok {
 		return k8sauth.DecisionDeny, "unknown question", nil
@@ -176,7 +182,7 @@ func (s *stubAuth) EvaluateConditions(ctx context.Context, decision k8sauth.Cond
 
 func run(r *core.R) {
 	r.FaultDecl("authorizer_error")
-	r.ProbeDecl("allowed", "denied_no_tier_get", "denied_no_policy_access", "three_concurrent_calls", "error_with_allow")
+	r.ProbeDecl("stub_saw_cancelled_context", "allowed", "denied_no_tier_get", "denied_no_policy_access", "three_concurrent_calls", "error_with_allow")
 	ncalls := r.Src.Range(1, 6, "ncalls")
 	fp := ""
 	for c := 0; c < ncalls; c++ {
